@@ -371,6 +371,8 @@ def replay(ctx, case):
                 again += 1
                 ctx.V(f"C19:concurrent-{res}", f"re-execution of seed {case['seed']}: {res}", case)
         ctx.note(f"violation recurred in {again}/20 re-executions")
+    elif "part" in ctx.shard:
+        run(ctx, ctx.shard)
     elif case.get("kind") == "view":
         run_views(ctx, 50)
     else:
